@@ -464,4 +464,42 @@ theorem readHeader_canonical (s : Spec) (count : Nat) (pad data : Bytes)
   simp only [hmin, if_false, hcap', hrn2, hhdr, hrest, hlines,
     scan_canonical s count _ hbc hbn hbr, validate_canonical s count hchans hcount hrate]
 
+/-! ## vocabulary and small facts used by the property statements -/
+
+theorem matches_hdrOf (s : Spec) (count : Nat) : Matches (hdrOf s count) s count :=
+  ⟨rfl, rfl, rfl, rfl, fun _ => rfl⟩
+
+/-- the number of whole frames in the first `n` bytes of the data section, capped by the promise -/
+def framesIn (count chans nbytes n total : Nat) : Nat := min count (min n total / (chans * nbytes))
+
+theorem length_payload (s : Spec) (items : List Int) : (payload s items).length = items.length * s.nbytes :=
+  length_flatMap_const _ _ (fun x => length_encItem _ _ x) items
+
+theorem framesIn_full (count chans nbytes : Nat) (hc : 1 ≤ chans) (hn : 1 ≤ nbytes) :
+    framesIn count chans nbytes (count * chans * nbytes) (count * chans * nbytes) = count := by
+  unfold framesIn
+  rw [Nat.min_self, Nat.mul_assoc, Nat.mul_div_cancel _ (Nat.mul_pos hc hn), Nat.min_self]
+
+theorem framesIn_short (count chans nbytes k : Nat)
+    (hk : k < count * chans * nbytes) :
+    framesIn count chans nbytes k (count * chans * nbytes) = k / (chans * nbytes)
+      ∧ k / (chans * nbytes) < count := by
+  unfold framesIn
+  have hlt : k / (chans * nbytes) < count := by
+    apply Nat.div_lt_of_lt_mul
+    rw [Nat.mul_comm (chans * nbytes) count, ← Nat.mul_assoc]; exact hk
+  rw [Nat.min_eq_left (Nat.le_of_lt hk), Nat.min_eq_right (Nat.le_of_lt hlt)]
+  exact ⟨rfl, hlt⟩
+
+theorem decItem_encItem_u8_any (be be' : Bool) (x : Int) (h : 0 ≤ x ∧ x < 256) :
+    decItem 1 false be' (encItem 1 be x) = x := by
+  cases be <;> cases be' <;> simp [decItem, encItem, encLE, unsignedLE] <;> omega
+
+/-- ITU-T G.711 expansion of a stored code, by coding -/
+def expand (c : Coding) (code : Int) : Int :=
+  match c with
+  | .alaw => G711.alawExpand code.toNat
+  | _ => G711.ulawExpand code.toNat
+
+
 end PdsVerif.Model.Sphere
